@@ -29,6 +29,9 @@ class World:
         self.arrivals = {}   # p -> number of gate arrivals
         self.at = {}         # p -> (gate name, info) or ("finished", None)
         self.events = []     # (p, gate, info) in real order
+        self.watch = None    # a path whose on-disk content is recorded at every gate (-> self.seen)
+        self.seen = []
+        self.published = []  # (p, target name, bytes on disk in the source file when rename/replace is called)
         self.threads = {}
         self.results = {}
         self.errors = {}
@@ -59,6 +62,12 @@ class World:
         p = self._proc()
         if p is None:
             return
+        if self.watch is not None:
+            try:
+                with open(self.watch, "rb") as f:
+                    self.seen.append((p, name, f.read()))
+            except OSError:
+                self.seen.append((p, name, None))
         with self.cv:
             self.events.append((p, name, info))
             self.at[p] = (name, info)
@@ -130,13 +139,26 @@ class World:
                 return None
             return o["savetxt"](fname, X, *a, **kw)
 
+        def on_disk(a):
+            """what another process (or a later run, if this one stops right after the rename) finds in the file:
+            the bytes that have reached the file system, not what still sits in a user-space buffer"""
+            def rd():
+                with open(a, "rb") as f:
+                    return f.read()
+            try:
+                return w._real(rd)
+            except OSError:
+                return None
+
         def replace(a, b, *x, **kw):
             if w._proc() is not None and w._mine(b):
+                w.published.append((w._proc(), os.path.basename(os.fspath(b)), on_disk(a)))
                 w.gate("rename", (os.path.basename(os.fspath(a)), os.path.basename(os.fspath(b))))
             return o["replace"](a, b, *x, **kw)
 
         def rename(a, b, *x, **kw):
             if w._proc() is not None and w._mine(b):
+                w.published.append((w._proc(), os.path.basename(os.fspath(b)), on_disk(a)))
                 w.gate("rename", (os.path.basename(os.fspath(a)), os.path.basename(os.fspath(b))))
             return o["rename"](a, b, *x, **kw)
 
